@@ -65,8 +65,39 @@ def register(S):
     NOSOCK = [m for m in CLOSEMODS if not m.startswith(SOCK)]
     QUIET = {"self._sendlock.held": "False", "self._send_queue.items": "nil()"}
     CFG = ["all_slots_ok(self._local_objects._dict) and cache_ok(self._proxy_cache._dict, self) and generic_cache_ok(module_global('rpyc.core.vinegar', '_generic_exceptions_cache'))", "haskey(self._config, 'close_catchall')", "haskey(self._config, 'logger')",
-           # scope: no before_closed hook configured (it fetches the remote root, i.e. serves traffic re-entrantly)
+           # scope of the plain behaviours: no before_closed hook configured (behaviour `with_hook` covers a configured hook)
            "not haskey(self._config, 'before_closed') or not truthy(self._config['before_closed'])"]
+    CFG_ANY_HOOK = CFG[:-1]
+    HOOK_SET = "haskey(self._config, 'before_closed') and truthy(self._config['before_closed'])"
+    CS = "conn._channel.stream.sock"
+    HK_MOD = ["conn._last_traceback", "conn._local_objects._dict", "conn._proxy_cache._dict", "$refcounts", "$sysmodules",
+              "global:rpyc.core.vinegar:_generic_exceptions_cache", "conn._seqcounter.nxt", "conn._request_callbacks",
+              CS + ".outbuf", CS + ".inbuf", "conn._remote_root"]
+    HK_INV = ["implies(old(all_slots_ok(conn._local_objects._dict)), all_slots_ok(conn._local_objects._dict))",
+              "implies(old(cache_ok(conn._proxy_cache._dict, conn)), cache_ok(conn._proxy_cache._dict, conn))",
+              "conn._seqcounter.nxt >= old(conn._seqcounter.nxt)",
+              "implies(old(generic_cache_ok(module_global('rpyc.core.vinegar', '_generic_exceptions_cache'))), "
+              "generic_cache_ok(module_global('rpyc.core.vinegar', '_generic_exceptions_cache')))"]
+    HK_DOWN = HK_MOD + [CS, CS + ".shut_attempted", CS + ".closed", CS + ".failed"]
+    # the user's before_closed hook, called with the remote root while the connection is already marked closed: it typically
+    # talks to the peer, i.e. serves whatever arrives meanwhile (any handler may run - but a nested close finds the connection
+    # marked closed and does nothing); it returns or raises anything, and the transport may be gone afterwards
+    S.external("before_closed_hook", params={"conn": "obj:Connection", "root": "val"}, result="val",
+               note="the configured before_closed hook: a ghost event; may touch what an exchange on the connection touches, keeps "
+                    "the table invariants, returns or raises anything, may leave the transport dead",
+               outcomes=[{"label": "returns", "events": [("Hook", "'before_closed'")], "modifies": HK_MOD, "assume": HK_INV},
+                         {"label": "raises", "raise": "*", "events": [("Hook", "'before_closed'")], "modifies": HK_MOD, "assume": HK_INV},
+                         {"label": "returns, transport died", "events": [("Hook", "'before_closed'")], "modifies": HK_DOWN, "assume": HK_INV,
+                          "sets": {"conn._channel.stream.sock": "ClosedFile"}},
+                         {"label": "raises, transport died", "raise": "*", "events": [("Hook", "'before_closed'")], "modifies": HK_DOWN,
+                          "assume": HK_INV, "sets": {"conn._channel.stream.sock": "ClosedFile"}}])
+    S.external("root_for_hook", params={"conn": "obj:Connection"}, result="val",
+               note="ASSUMED: `self.root` read while closing (the connection is already marked closed): the cached root, or a synchronous "
+                    "request for it - returns or raises anything, touches what an exchange touches, may leave the transport dead",
+               outcomes=[{"label": "returns", "modifies": HK_MOD, "assume": HK_INV},
+                         {"label": "raises", "raise": "*", "modifies": HK_MOD, "assume": HK_INV},
+                         {"label": "raises, transport died", "raise": "*", "modifies": HK_DOWN, "assume": HK_INV,
+                          "sets": {"conn._channel.stream.sock": "ClosedFile"}}])
     S.contract(F + "root", params={"self": "obj:Connection"}, result="val",
                note="fetches the remote root by a synchronous request the first time (serves traffic meanwhile) and remembers it",
                init={"self._sendlock.held": "False", "self._send_queue.items": "nil()"}, clock=True,
@@ -77,9 +108,22 @@ def register(S):
                                               "same(result, self._remote_root)", ["C11"])}, raises={"BaseException": {"props": ["C11"], "modifies": ALLMODS + ["self._remote_root"]}},
                modifies=ALLMODS + ["self._remote_root"])
     S.contract(F + "close", params={"self": "obj:Connection"},
-               abstract_calls={"self._local_root.on_disconnect": "hook_disconnect"},
-               dispatch=[("self._closed", "again"), (SOCK + " is ClosedFile", "first_dead"), (None, "first")],
+               abstract_calls={"self._local_root.on_disconnect": "hook_disconnect", "self._config['before_closed']": "before_closed_hook"},
+               getattr_models={"self.root": "root_for_hook"},
+               dispatch=[("self._closed", "again"), (HOOK_SET, "with_hook"), (SOCK + " is ClosedFile", "first_dead"), (None, "first")],
                behaviours={
+                   # a before_closed hook is configured (transport open at entry): whatever the hook or the fetch of the root does -
+                   # returns, raises, kills the transport - the side ends closed and clean, the disconnect hook ran exactly once
+                   "with_hook": dict(init=QUIET,
+                                     requires=CFG_ANY_HOOK + [HOOK_SET, "not self._closed", "not isnone(self._local_root)",
+                                                              SOCK + " is not ClosedFile", "not %s.failed" % SOCK],
+                                     ensures={"send_lock_free": ("not self._sendlock.held", P11), "closed_and_clean": (CLEAN, P11),
+                                              "disconnect_hook_exactly_once": (
+                                                  "n_callees('_cleanup') == 1 and callee_arg('_cleanup', 0, '_anyway') == True", P11)},
+                                     raises={"BaseException": {"props": P11, "modifies": ALLMODS + ["self._remote_root"],
+                                                               "sets": {"self._channel.stream.sock": "ClosedFile"},
+                                                               "state": [CLEAN, "n_callees('_cleanup') == 1", "not self._sendlock.held"]}},
+                                     sets={"self._channel.stream.sock": "ClosedFile"}, modifies=ALLMODS + ["self._remote_root"]),
                    "again": dict(requires=["self._closed"],
                                  ensures={"closing_again_is_a_noop": ("n_events() == 0 and self._closed", P11)},
                                  raises={}, modifies=[]),
